@@ -204,12 +204,20 @@ def run_v(spec, res):
     try:
         G = pki.PKI(clock.now(), n_at=1, aa_psids=(36, 37, 638, 99, 140), at_psids=(36, 37, 638), name="v")
         windows = [("years", 10), ("seconds", 30), ("minutes", 2), ("hours", 1)]
+        block = []
+        rx = None
         for k in range(spec["cases"]):
-            unit, n = rng.choice(windows)
-            start_off = rng.choice((-1000, -10, 0, 5, 60))
-            at_psids = rng.choice(((36, 37, 638), (36,), (99, 140), (37, 638)))
-            at = G.new_at(at_psids, start=pki.t32(clock.now()) + start_off, dur=(unit, n))
-            rx = G.station(G.ats[0], known_ats=[pki.strip(at)])
+            # one receiver (one VerifyService / certificate library) judges a STREAM of messages signed by several tickets with
+            # different permissions and validity windows: a verdict must depend on the message and its ticket only
+            if k % 12 == 0:
+                block = []
+                for _ in range(4):
+                    unit, n = rng.choice(windows)
+                    start_off = rng.choice((-1000, -10, 0, 5, 60))
+                    at_psids = rng.choice(((36, 37, 638), (36,), (99, 140), (37, 638)))
+                    block.append((G.new_at(at_psids, start=pki.t32(clock.now()) + start_off, dur=(unit, n)), at_psids, unit, n, start_off))
+                rx = G.station(G.ats[0], known_ats=[pki.strip(b[0]) for b in block])
+            at, at_psids, unit, n, start_off = rng.choice(block)
             lo, hi = pki.validity_window_us(at.certificate)
             tclass = rng.choice(("within", "within", "before", "after", "edge_lo", "edge_hi", "way_after"))
             gt = {"within": (lo + hi) // 2, "before": lo - rng.choice((1, 10 ** 6, 10 ** 9)), "after": hi + rng.choice((1, 10 ** 6, 10 ** 9)),
@@ -220,7 +228,7 @@ def run_v(spec, res):
             msg = craft_signed(at, G.backend, psid, b"payload-%d" % k, gt, form, extra)
             conf = rx["verify"].verify(SNVERIFYRequest(sec_header=b"", sec_header_length=0, message=msg, message_length=len(msg)))
             res.count("V.messages")
-            case = {"part": "V", "psid": psid, "at_psids": list(at_psids), "time_class": tclass, "form": form, "window": [unit, n], "start_off": start_off}
+            case = {"part": "V", "psid": psid, "at_psids": list(at_psids), "time_class": tclass, "form": form, "window": [unit, n], "start_off": start_off, "position_in_stream": k % 12}
             ok = conf.report.value == 0
             in_perm = psid in at_psids
             in_time = lo <= gt <= hi
